@@ -96,7 +96,7 @@ theorem parseSingleRange_render (e : Nat) (r : Spec.Range) (hw : r.WF = true) :
   have hchk : ∀ e, rangeCheck e r.loS.length r.lo r.hi false = .ok (srOf r) e := by
     intro e
     unfold rangeCheck
-    simp [Nat.not_lt.mpr hle, hbig, erangeRejected, srOf]
+    simp [Nat.not_lt.mpr hle, hbig, erangeRejected, ulongMaxRejected, srOf]
   unfold Spec.renderRange
   cases hh : r.hiS with
   | none =>
